@@ -33,7 +33,7 @@ def match_known(known, v):
 def write_replay(v):
     d = os.path.join(VERIF, 'replays', v['prop']); os.makedirs(d, exist_ok=True)
     body = dict(property=v['prop'], kind=v['kind'], grammar_name=v['gname'], grammar=v['gtext'], entry=v['entry'],
-                tokens=v.get('tokens'), witness=v['witness'], callback_script=v['script'], detail=v['detail'], native=v.get('native'))
+                tokens=v.get('tokens'), witness=v['witness'], callback_script=v['script'], detail=v['detail'], native=v.get('native'), dynskip=v.get('dynskip'))
     h = hashlib.sha256(json.dumps(body, sort_keys=True, default=str).encode()).hexdigest()[:16]
     p = os.path.join(d, h + '.json')
     json.dump(body, open(p, 'w'), indent=1, default=str)
@@ -58,6 +58,7 @@ def select(prop, t, sd):
     sym = [gram.symbolize(g) for i, g in enumerate(base) if t == 'thorough' or (i + sd) % 3 == 0]
     pairs = corpus.pair_family(all_pairs=(t == 'thorough'), seed=sd)
     gs = cur + cov + nm + rec + pf + px + zp + pairs + sym + rnd
+    if prop in ('C01', 'C02', 'C03'): gs = gs + corpus.dynskip_family()
     for g in gs:      # sentences up to two tokens longer than the bound (sentence-directed pass, see props.grammar_job)
         if 'deep_sentences' not in g.meta: g.meta['deep_sentences'] = 2
     if prop in ('C04', 'C05'):
@@ -311,7 +312,7 @@ def replay(path):
         exe = c12.build_fe_native(); o = c12.fe_native_run(exe, [' '.join(body['tokens'])])[0]
         print(json.dumps(o)[:1500]); print('recorded detail:', body.get('detail', '')[:600]); return 0
     g = gram.parse_simple(body['grammar'], name=body.get('grammar_name', 'replay'))
-    h, err = harness.make_harness(body['grammar'])
+    h, err = harness.make_harness(body['grammar'], dynskip=body.get('dynskip'))
     if h is None:
         print('grammar is rejected / does not compile now:', err[0], (err[1] or '')[:300]); return 0
     toks = [h.tokens[k] for k in body['witness']]
